@@ -64,6 +64,11 @@ CLAIMED = {
    note="Trusted: TLC, Filter/Detection/CondLang/QueryLang specs, /verif backend templates. Equal random prefixes for two stacked filters (probability 26^-10) are not forced. One recorded deviation (underscore-leading filter names).",
    technique="TLA+ model of filter renaming checked against the ideal semantics with TLC; TLC-generated rule/filter sets replayed into the code; TLC parses and judges the filtered queries",
    ref="6/C11"),
+ "C13": dict(level=MC,
+   text="TLC model-checks the group semantics of spec/Gating.tla (MC_Gating: empty group always holds, linking = conjunction/disjunction, negation flips non-empty groups, expression evaluator = truth table, stepping through all assignments). TLC-generated gate configurations (pools with a true and a false instance of every built-in rule / detection-item / field-name condition type, list or map form, default/and/or/expression linking, negation, EMPTY groups under every setting; each group alone exhaustively + seeded 12x12x10 product) are put on a marker transformation behind a state-setting and a renaming item; after ProcessingPipeline.apply() the driver records which detection items, field-list entries and the rule carry the marker; TLC evaluates the gate on the abstract rule and compares.",
+   note="Trusted: TLC, Gating.tla (documented meaning of each condition type; match_string restricted to '^literal' patterns), the abstract post-state of the two preceding items (confirmed by the trace: tracking sets, renamed fields). One recorded deviation (field-level applied-condition second check).",
+   technique="TLA+ gating semantics model-checked with TLC; TLC-generated condition configurations replayed into real pipelines; TLC judges where the marker acted",
+   ref="6/C13"),
 }
 REASON_NOT_BUILT = "check not built yet in this round (see DESIGN.md section 6 for the planned TLA+ model); not claimed until its judge is sound"
 ALL = [f"C{i:02d}" for i in range(1, 21)]
